@@ -27,13 +27,13 @@ def main():
         if r.returncode != 0:
             print("cannot apply", patch, r.stdout); continue
         row = {}
-        for kind in ["random", "sticky", "pct", "stall"]:
+        for kind in (os.environ.get("KINDS") or "random,sticky,pct,stall").split(","):
             env = dict(os.environ, VERIF_REPO=WT, VERIF_RUNS="16000", KMSIM_SCHED_ONLY=kind)
             subprocess.run(["./check", prop, "quick"], cwd=HERE, env=env, stdout=subprocess.DEVNULL, stderr=subprocess.DEVNULL)
             ev = json.load(open(os.path.join(HERE, "evidence", f"{prop}.json")))
             row[kind] = {"runs": ev["coverage"]["evaluations"], "violating_runs": ev["coverage"].get("violating_runs", 0)}
         res[patch] = {"property": prop, **row}
         print(patch, {k: f"{v['violating_runs']}/{v['runs']}" for k, v in row.items()}, flush=True)
-        json.dump(res, open(os.path.join(HERE, "seeded", "_mine", "sched_effect.json"), "w"), indent=1)
+        json.dump(res, open(os.path.join(HERE, "seeded", "_mine", os.environ.get("OUTNAME", "sched_effect.json")), "w"), indent=1)
     sh(f"git -C {WT} checkout -q -- .")
 main()
